@@ -14,10 +14,12 @@ STRATA = [
     ("tiny", 2500, 40000),
     ("threshold", 500, 8000),
     ("planted", 40, 600),
+    ("mid", 400, 6000),
     ("enum", 1500, 25000),
     ("assume", 800, 12000),
     ("tuning", 500, 8000),
     ("reduce", 0, 3),
+    ("suite", 0, 1),
     ("enum-reduce", 6, 48),
 ]
 REQUIRED_EVENTS = {"any": ["c01.models-checked", "c01.distinctness-checked", "l2.analyze", "l2.unassign_to", "l2.learned-checked"],
